@@ -131,19 +131,7 @@ def ops_pattern(r, np_, stats):
             out.append(r.choice("Ww"))
     if r.random() < 0.7:
         out += ["C", "W"]
-    # outside the property's quantifier (and a confirmed internal_error, see the report): hash_check(quick) and
-    # hash_check(full) issued back to back while the first one's error notification is still in the scheduler.
-    # Keep the scheduler tick a client's main loop would run between two checks of different kind.
-    res, last = [], None
-    for o in out:
-        if o in ("C", "Q"):
-            if last is not None and last != o:
-                res.append("K")
-            last = o
-        elif o[0] in "KWwXx":
-            last = None
-        res.append(o)
-    return res
+    return out
 
 
 def fmt(pl, seed, files, pert, ops):
@@ -174,6 +162,10 @@ HAND = [
     "1100 5 1000:f 100:f 1100:f 50:f | U3:l | O C D0 D1 K W",
     "1100 5 1000:f 100:f 1100:f 50:f | U0:l | O C K",
     "1100 5 2200:f | | O C s C s C x O C w",
+    # a timer left over from a failed check must not confirm a later quick check
+    "1100 1 1100:f 1100:f | M0 U1:l | O C Q K C",
+    "1100 1 1100:f 1100:f | M0 U1:l | O C Q K S C W",
+    "1100 1 1100:f 1100:f 1100:f | M0 U1:d | O C Q K C K",
 ]
 
 
@@ -245,7 +237,7 @@ def parse_snap(s):
 def oracle(case, full):
     """Property C09 evaluated on ONE implementation output line -> list of (class, text)."""
     if full.startswith("ERR:internal") and "HashTorrent::start() call failed" in full:
-        return [("recheck-before-notification", "internal_error from hash_check issued while the previous check's notification was pending: " + full[:200])]
+        return [("recheck-stale-delay-timer", "internal_error from hash_check: a completion/error timer left over from an earlier check fired during a later one: " + full[:200])]
     if full.startswith("CRASH") or full.startswith("ERR:") or full.startswith("MISSING"):
         return [("crash", "the library crashed, threw internal_error or hung: " + full[:200])]
     if full.startswith("REJECT") or full.startswith("BADCASE"):
